@@ -530,6 +530,18 @@ func evaluate(fam string, nodes []nodeSpec, p *pq, key string) {
 		sig, why := classifyExtra(&e, uint32(1)<<uint(i))
 		vrep.Violation(sig, fmt.Sprintf("%s is selected although %s; must be selected: %v, selected: %v: %s", nodes[i].label(), why, labelsOf(nodes, e.must), labelsOf(nodes, selT), where()), mk())
 	}
+	// execution follows node edges: every node (alias nodes included) on the dependency paths of a
+	// selected target must be selected as well, otherwise the dependant is never released
+	// ("dependencies followed through aliases")
+	for i := n - 1; i >= 0; i-- {
+		if o.selected&(1<<uint(i)) == 0 || e.targets&(1<<uint(i)) == 0 {
+			continue
+		}
+		if open := e.closure[i] &^ o.selected; open != 0 && e.must&(1<<uint(i)) != 0 {
+			vrep.Violation("selected-target-with-unselected-node-on-its-dependency-path", fmt.Sprintf("%s is selected but the nodes %v on its dependency paths are not (an unselected alias node is never walked, the dependant never starts): %s", nodes[i].label(), labelsOf(nodes, open), where()), mk())
+			break
+		}
+	}
 	// whatever is selected below a root of undefined status must be closed under
 	// dependencies and must not contain platform-incompatible targets either
 	und := selT & e.may &^ e.must
